@@ -399,7 +399,10 @@ fn consume(src: &Vec<char>, start: usize, line: u32, src_file_path: String) -> R
         },
         _ => {
             // if nothing matches must be an identifier
-            let (t, consumed) = consume_identifier(src, start, line, src_file_path);
+            let (t, consumed) = consume_identifier(src, start, line, src_file_path.clone());
+            if consumed == 0 {
+                return Err(SyntaxError(line, src_file_path, format!("Unexpected character '{}'", src[start])));
+            }
 
             consumed_char = consumed;
             consumed_line = 0;
